@@ -8,7 +8,7 @@ condition add·wait·post / join / create / cancel / exit, and any sequence of m
 operations (new / resume / cancel / cleanup / pass), each followed by one loop pass.
 The counterexample theorems are about `run initOrig …`, the model of the code as found.
 -/
-import TboxModel.C18.Cleanup
+import TboxModel.C18.Trace
 namespace Tbox.C18
 
 /-- the invariant (Spec.lean: `InvS` structural, `InvL` trace-level) holds in every reachable state -/
@@ -48,7 +48,7 @@ theorem C18_semaphore_bound (ops : List MainOp) (k : Nat) :
 suspended in `>>` / `lock` / `acquire` implies that the channel is empty / the mutex is held /
 the count is zero; a routine suspended in `Broadcast::wait` registered after the last post
 (every waiter present at a post was resumed by it); a routine suspended in `Condition::wait`
-is the registered waiter; a routine suspended in `join` is the registered joiner of a live
+is the registered waiter and at least one added key is still unposted; a routine suspended in `join` is the registered joiner of a live
 target (or was cancelled by `cleanup()` and is about to be run). -/
 theorem C18_no_lost_wakeup (ops : List MainOp) (r : Nat) :
     let s := run init ops
@@ -56,7 +56,7 @@ theorem C18_no_lost_wakeup (ops : List MainOp) (r : Nat) :
     (∀ m, susp s r (.lock m) → (s.mx m).hold ≠ none ∧ r ∈ (s.mx m).waiters) ∧
     (∀ k, susp s r (.acquire k) → (s.sm k).count = 0 ∧ r ∈ (s.sm k).tokens) ∧
     (∀ b, susp s r (.bwait b) → (s.R r).wepoch = (s.bc b).epoch ∧ r ∈ (s.bc b).tokens) ∧
-    (∀ k, susp s r (.cwait k) → (s.cd k).tok = some r) := by
+    (∀ k, susp s r (.cwait k) → (s.cd k).tok = some r ∧ (s.cd k).conds ≠ []) := by
   intro s
   have h := (C18_reachable_inv ops).1.S
   refine ⟨fun c hs => ?_, fun m hs => ?_, fun k hs => ?_, fun b hs => ?_, fun k hs => h.cdReg r k hs⟩
@@ -117,54 +117,36 @@ theorem C18_cleanup_all_dead (ops : List MainOp) (r : Nat) (hr : r < (cleanup (r
   have hi := cleanup_inv (C18_reachable_inv ops).1
   exact ⟨hf, hi.S.freedDead r hf, hi⟩
 
-/-- a blocking operation of the property -/
-def blocking : Op → Bool
-  | .recv _ | .lock _ | .acquire _ | .bwait _ | .cwait _ | .join _ => true
-  | _ => false
-
-/-- **cancel unblocks** (2): the pending blocking call of a cancelled routine returns failure. -/
-theorem C18_cancel_fails (s : State) (me : Nat) (op : Op) (rest : List Op) (hc : (s.R me).canceled = true)
-    (hi : (s.R me).inOp = true) (hb : blocking op = true) :
-    (execOp s me op rest).1.log = s.log ++ [{ r := me, op := op, res := .fail, canc := true }] := by
-  simp only [State.R] at hc hi
-  cases op <;> simp [blocking] at hb <;> simp [execOp, hc, hi, finish, tag, State.R, State.setR, State.setCd]
-
-/-- a cancelled routine (by `cancel` or by `cleanup()`) that is switched to runs to the end of its
-script in that one switch, is deleted, and — if it was blocked in an operation — the first thing it
-logs is the failure of that pending call.  (`switch_clean` shows that `cleanup()` makes exactly this
-switch for every routine still in the cabinet.) -/
-theorem C18_cancelled_switch_terminates (s : State) (r : Nat) (op : Op) (rest : List Op) (hic : s.inCleanup = true)
-    (hc : (s.R r).canceled = true) (hi : (s.R r).inOp = true) (hs : (s.R r).script = op :: rest)
+/-- **cleanup makes every pending blocking call fail** (global, trace level): in every reachable
+state, every routine that is started and blocked in `>>` / `lock` / `acquire` / `Broadcast::wait` /
+`Condition::wait` / `join` when `cleanup()` is called logs the failure of exactly that call, with
+`isCanceled()` true, before `cleanup()` returns (`l1` = what the routines swept earlier logged),
+and by `C18_cleanup_all_dead` it has terminated. -/
+theorem C18_cleanup_fails_pending (ops : List MainOp) (r : Nat) (op : Op) (rest : List Op)
+    (ha : alive (run init ops) r = true) (hst : ((run init ops).R r).started = true)
+    (hi : ((run init ops).R r).inOp = true) (hs : ((run init ops).R r).script = op :: rest)
     (hb : blocking op = true) :
-    ((switchTo s r).R r).freed = true ∧
-    s.log ++ [{ r := r, op := op, res := .fail, canc := true }] <+: (switchTo s r).log := by
-  have hc1 : ((s.setR r { s.R r with state := .running, started := true }).R r).canceled = true := by
-    simp only [State.R, State.setR, ite_true]; exact hc
-  have hi1 : ((s.setR r { s.R r with state := .running, started := true }).R r).inOp = true := by
-    simp only [State.R, State.setR, ite_true]; exact hi
-  have hs1 : ((s.setR r { s.R r with state := .running, started := true }).R r).script = op :: rest := by
-    simp only [State.R, State.setR, ite_true]; exact hs
-  have k2 := runOps_canceled r (op :: rest) (s := s.setR r { s.R r with state := .running, started := true }) hic hc1
-  have hfail := C18_cancel_fails (s.setR r { s.R r with state := .running, started := true }) r op rest hc1 hi1 hb
-  have nb := C18_cancel_unblocks' (s.setR r { s.R r with state := .running, started := true }) r op rest hc1
-  have hlog : s.log ++ [{ r := r, op := op, res := .fail, canc := true }] <+:
-      (runOps r (op :: rest) (s.setR r { s.R r with state := .running, started := true })).log := by
-    simp only [runOps]
-    split
-    · rename_i s1 e; rw [e] at hfail
-      have hf' : s1.log = s.log ++ [{ r := r, op := op, res := .fail, canc := true }] := hfail
-      rw [← hf']; exact runOps_log r rest s1
-    · rename_i s1 e; rw [e] at nb; exact absurd rfl nb
-    · rename_i s1 e; rw [e] at hfail
-      have hf' : s1.log = s.log ++ [{ r := r, op := op, res := .fail, canc := true }] := hfail
-      rw [← hf']; simp [die]
-  unfold switchTo
-  simp only [hs1, k2.2, ite_true]
-  refine ⟨?_, ?_⟩
-  · have := ((SameC.refl (freeRoutine (runOps r (op :: rest) (s.setR r { s.R r with state := .running, started := true })) r)).resumeOpt
-      ((freeRoutine (runOps r (op :: rest) (s.setR r { s.R r with state := .running, started := true })) r).R r).joiner).fr r
-    rw [this.1]; simp [freeRoutine, State.R, State.setR]
-  · simpa [freeRoutine] using hlog
+    ∃ l1 l2, (cleanup (run init ops)).log =
+      (run init ops).log ++ l1 ++ { r := r, op := op, res := .fail, canc := true } :: l2 :=
+  cleanup_fails_pending (C18_reachable_cab ops) (C18_reachable_inv ops).1 r op rest ha hst hi hs hb
+
+/-- **posts before the wait count** (Condition bookkeeping is independent of a waiter being
+registered): `post(v)` of a pending key consumes it — kAll: erases `v`, kAny: clears — whether or
+not a routine is waiting yet, so a key posted before `wait()` is not asked for again.  Together
+with the condition clause of `C18_no_lost_wakeup` (a routine suspended in `Condition::wait` is the
+registered waiter AND some added key is still unposted) this covers every order of posts around
+the wait: the post that consumes the last pending key finds the waiter registered and resumes it
+(`execOp_S`, case `cpost`), an earlier one only shrinks the pending set. -/
+theorem C18_condition_post_consumes (s : State) (me k v : Nat) (rest : List Op) (hv : v ∈ (s.cd k).conds) :
+    ((execOp s me (.cpost k v) rest).1.cd k).conds = (if (s.cd k).all then (s.cd k).conds.erase v else []) := by
+  simp only [execOp, hv, ite_true]
+  cases hall : (s.cd k).all <;> simp only [ite_true, Bool.false_eq_true, ite_false, List.isEmpty_nil]
+  · simp [finish, State.setR, State.setCd]
+  · split
+    · rename_i he
+      have : (s.cd k).conds.erase v = [] := by simpa using he
+      simp [finish, State.setR, State.setCd, this]
+    · simp [finish, State.setR, State.setCd]
 
 /-- **join**: a routine waiting in `join t` (and not cancelled) is the one registered joiner of a
 target that has not finished; `switchToRoutine` resumes exactly that joiner when the target dies
@@ -237,15 +219,36 @@ theorem C18_lost_wakeup_rewait_counterexample :
     quiescent (run initOrig cexRewait) ∧ susp (run initOrig cexRewait) 0 (.recv 0) ∧
     ((run initOrig cexRewait).ch 0).queue = [8] := by decide
 
+/-- (patches/C18-05) a waiter resumed by `post()` ran `conds_.clear()` after waking and wiped the
+conditions a second routine had added and was already waiting on; that routine's own condition
+is then posted and nobody is resumed: suspended for ever on a satisfied condition -/
+def cexCondition : List MainOp :=
+  [.define false [.cadd 0 1, .cwait 0], .define false [.cpost 0 1, .cadd 0 2, .cwait 0], .define false [.cpost 0 2],
+   .new 0 true, .new 1 true, .pass, .new 2 true, .pass, .pass]
+
+theorem C18_lost_wakeup_condition_counterexample :
+    quiescent (run initOrig cexCondition) ∧ susp (run initOrig cexCondition) 1 (.cwait 0) ∧
+    ((run initOrig cexCondition).cd 0).conds = [] ∧
+    (run initOrig cexCondition).log.getLast? = some { r := 2, op := .cpost 0 2, res := .ok, canc := false } := by decide
+
 /-! ### non-vacuity: the same scenarios on the repaired model end with everybody served -/
 
 example : (run init cexChannel).log.map (fun e => (e.r, e.res)) =
     [(2, .ok), (2, .ok), (0, .val 1), (1, .val 2)] := by decide
 example : ((run init cexMutex).R 1).state = .dead ∧ ((run init cexMutex).mx 0).hold = none := by decide
 example : ((run init cexSemaphore).R 1).state = .dead ∧ ((run init cexRewait).R 0).state = .dead := by decide
+/-- the seeded/C18-4 history on the repaired model: kAll condition {1,2}; 1 is posted BEFORE the
+waiter reaches `wait()`, 2 after it has blocked: the waiter is resumed and finishes; and the
+C18-05 scenario ends with the second waiter served -/
+example : ((run init [.define false [.cadd 0 1, .cadd 0 2, .yield, .yield, .cwait 0], .define false [.cpost 0 1],
+    .define false [.cpost 0 2], .new 0 true, .new 1 true, .pass, .new 2 true, .pass]).R 0).state = .dead := by decide
+example : ((run init cexCondition).R 1).state = .dead := by decide
 /-- a reachable state with two routines suspended in `recv` (hypotheses of `C18_no_lost_wakeup`) -/
 example : susp (run init (cexChannel.take 5)) 0 (.recv 0) ∧ susp (run init (cexChannel.take 5)) 1 (.recv 0) ∧
     (run init (cexChannel.take 5)).readyq = [] := by decide
+/-- hypotheses of `C18_cleanup_fails_pending`: two started routines blocked in `recv` -/
+example : alive (run init (cexChannel.take 5)) 1 = true ∧ ((run init (cexChannel.take 5)).R 1).started = true ∧
+    ((run init (cexChannel.take 5)).R 1).inOp = true ∧ ((run init (cexChannel.take 5)).R 1).script = [.recv 0] := by decide
 /-- a reachable state with a routine suspended in `join` on a live target -/
 example : susp (run init [.define false [.wait], .define false [.join 0], .new 0 true, .new 1 true, .pass]) 1 (.join 0) := by decide
 /-- cancelled + blocked: hypotheses of `C18_cancel_fails` -/
